@@ -98,7 +98,12 @@ def check_votes(acc, ename, cmode, shape, vals, w):
     try:
         with warnings.catch_warnings():
             warnings.simplefilter("ignore")
-            v = compute_vote_vectors(y.copy(), w=None if wa is None else wa.copy(), classes=classes, missing_label=e["ml"])
+            y_in, w_in = y.copy(), (None if wa is None else wa.copy())
+            v = compute_vote_vectors(y_in, w=w_in, classes=classes, missing_label=e["ml"])
+            same_y = np.array_equal(y_in, y, equal_nan=True) if y.dtype.kind == "f" else np.array_equal(y_in, y)
+            if not same_y or (w_in is not None and not np.array_equal(w_in, wa, equal_nan=True)):
+                acc.violation("compute_vote_vectors", "input_modified", "y: %s -> %s, w: %s -> %s" % (y.tolist(), y_in.tolist(), None if wa is None else wa.tolist(),
+                              None if w_in is None else w_in.tolist()), wit, replay=rep, size=size)
         acc.transitions += 1
         if trivial:
             acc.violation("compute_vote_vectors", "no_rejection_without_classes", "returned %s" % (v.tolist(),), wit, replay=rep, size=size)
